@@ -143,8 +143,19 @@ func DrawParams(t *rapid.T, types []string) Params {
 		p.Reserve[i] = r
 	}
 
+	// The opener must be able to afford the commitment at the drawn
+	// rate: reserve + fee(2000 wu) + anchors + 2% of capacity <= capacity.
+	feeMax := int64(50000)
+	if room := int64(p.Capacity) - int64(p.Reserve[0]) - 660 -
+		int64(p.Capacity)/50; room*1000/2000 < feeMax {
+
+		feeMax = room * 1000 / 2000
+	}
+	if feeMax < 253 {
+		feeMax = 253
+	}
 	p.FeePerKw = chainfee.SatPerKWeight(
-		rapid.Int64Range(253, 50000).Draw(t, "feePerKw"),
+		rapid.Int64Range(253, feeMax).Draw(t, "feePerKw"),
 	)
 	if rapid.IntRange(0, 3).Draw(t, "lowFee") == 0 {
 		p.FeePerKw = chainfee.SatPerKWeight(
@@ -173,9 +184,16 @@ func DrawParams(t *rapid.T, types []string) Params {
 	case 1: // balanced
 		openerShare = p.Capacity / 2
 	default:
+		lo := minOpener
+		if lo > maxOpener {
+			lo = maxOpener
+		}
 		openerShare = btcutil.Amount(rapid.Int64Range(
-			int64(minOpener), int64(maxOpener),
+			int64(lo), int64(maxOpener),
 		).Draw(t, "openerShare"))
+	}
+	if minOpener > maxOpener {
+		minOpener = maxOpener
 	}
 	if openerShare < minOpener {
 		openerShare = minOpener
